@@ -218,6 +218,13 @@ def matrix_cases():
                 yield f'{p}{p}a{s}{s} {A} b'
         yield f'y = a {A} b; y += a {A} b; z[a {A} b] = a {A} b; del z[a {A} b]'
         yield f'{{a {A} b: c {A} d}}'
+    for tgt in ['a[0]', '(a[0])', '((a[0]))', '(a)[0]', 'a[0][1]', '(a[0])[1]', '(a[0][1])', 'f(a)[0]', '(f(a)[0])', '__getitem__(a, 0)', 'a[0:1]', '(a)', 'a.b()[0]',
+                '(a.b())[0]', '-a[0]', '(-a)[0]', 'not a[0]', 'a | f[0]', '(a | f)[0]', '[a][0]', '{a: b}[a]', '"s"[0]', '1[0]', 'a[0] if b else c[0]', 'x => x[0]']:
+        yield f'del {tgt}'
+        yield f'{tgt} = 1'
+        yield f'{tgt} += 1'
+        yield f'b = {tgt}'
+        yield f'del {tgt}; {tgt} = 2'
     for s1 in suf[1:]:
         for s2 in suf[1:]:
             for p in pre:
